@@ -1,11 +1,13 @@
 //! `vh-crypto` — decision tables of the crypto layer (DESIGN §3.6, §5 "Crypto"):
 //! `AfcMessage.tla` cells into `aranya_fast_channels::Client` (C39), `CryptoBinding.tla` cells
-//! into real `DefaultEngine` objects (C34, C36, C37, C38).
+//! into real `DefaultEngine` objects (C34, C36, C37, C38), `TamperReplica.tla` behaviours into two
+//! real replicas running a signing policy (C35).
 mod afckeys;
 mod afcmsg;
 mod enc;
 mod ops;
 mod sign;
+mod tamper;
 mod util;
 mod wrap;
 
@@ -17,6 +19,7 @@ fn main() {
         "wrap" => wrap::run(&args),
         "enc" => enc::run(&args),
         "afckeys" => afckeys::run(&args),
+        "tamper" => tamper::run(&args),
         s => vrt::die(&format!("unknown subcommand {s}")),
     }
 }
